@@ -6,15 +6,15 @@
     (3) invariant: the registry value for datetime is always an _unconvert_datetime;
     (4) a thread that has finished produced exactly [spec_outcomes] of its program. *)
 From OfxV Require Import Base.Prelude Model.Dispatch Proofs.DispatchProofs.
-Theorem dispatch_interleaving_independent : forall (rereg : bool) (fmt : inst -> pyval -> result text),
-  (forall i j v, fmt i v = fmt j v) ->
+Theorem dispatch_interleaving_independent : forall (rereg rebinds : bool) (fmt : inst -> pyval -> result text),
+  (rebinds = true \/ forall i j v, fmt i v = fmt j v) ->
   forall (progs : list (list op)) (sched : list nat),
-    let cfg := run_schedule rereg fmt (init_state, map new_thread progs) sched in
+    let cfg := run_schedule rereg rebinds fmt (init_state, map new_thread progs) sched in
     (forall th d, In th (snd cfg) -> In d (done th) ->
-        (forall c v, sem fmt (d_handler d) c v = sem fmt (fst (dispatch init_state (vty (d_val d)))) c v)
+        (forall c v, sem rebinds fmt (d_handler d) c v = sem rebinds fmt (fst (dispatch init_state (vty (d_val d)))) c v)
         /\ d_out d = spec_unconvert fmt (d_caller d) (d_val d))
     /\ (forall t h, lookup t (cache (fst cfg)) = Some h ->
-        forall c v, sem fmt h c v = sem fmt (fst (dispatch init_state t)) c v)
+        forall c v, sem rebinds fmt h c v = sem rebinds fmt (fst (dispatch init_state t)) c v)
     /\ (exists b, lookup TDatetime (registry (fst cfg)) = Some (UnconvDatetime b))
     /\ Forall2 (fun prog th => finished th = true -> map d_out (done th) = spec_outcomes fmt prog) progs (snd cfg).
 Proof. exact dispatch_interleaving_independent_thm. Qed.
